@@ -45,7 +45,7 @@ ASSUMPTIONS = ['upstream answers every GetMap with a cacheable image (no source 
 EXPLANATION = ('refusal-before-effects and effects-inside-grid proved for all requests over the model; real application compared on '
                'boundary addresses, limits, malformed values under a recording upstream and cache')
 
-GEN = []      # C16 depends on no translator-generated file (other properties' specs are not this check's obligations)
+GEN = ['Gen_wmts_parse.v']     # address parsers of request/wmts.py and request/tile.py (translator/specs/wmts_parse.py)
 
 FMT_ID = {'png': 1, 'jpeg': 2}
 DIM_ID = {'time': 1, 'elevation': 2}
@@ -178,6 +178,7 @@ def layer_opts(rng):
                                  'elevation': (['Winter', 'summer', 'X1'], 'Winter')}]),
             'queryable': rng.random() < 0.7,
             'mixed': rng.random() < 0.3,       # cache `format: mixed`: the layer still offers png only
+            'minimize': rng.random() < 0.35,   # minimize_meta_requests: one upstream request for all missing tiles
             'format': 'png'}
 
 
@@ -231,6 +232,8 @@ class App(object):
                      'meta_size': list(opts['meta']), 'meta_buffer': 0, 'cache': {'type': 'file'}}
             if opts['max_tiles'] is not None:
                 cache['max_tile_limit'] = opts['max_tiles']
+            if opts.get('minimize'):
+                cache['minimize_meta_requests'] = True
             if opts.get('mixed'):
                 cache['format'] = 'mixed'
                 cache['request_format'] = 'image/png'
@@ -239,6 +242,8 @@ class App(object):
             if opts['dims']:
                 lyr['dimensions'] = dict((k, {'values': v[0], 'default': v[1]}) for k, v in opts['dims'].items())
             conf['layers'].append(lyr)
+        # a WMS layer backed directly by the source (no cache): ignores tiled=true, only the pixel limit bounds it
+        conf['layers'].append({'name': 'l_direct', 'title': 'd', 'sources': ['up']})
         path = os.path.join(self.tmp, 'mapproxy.yaml')
         with open(path, 'w') as f:
             yaml.safe_dump(conf, f)
@@ -265,9 +270,10 @@ class App(object):
         o = li.opts
         dims = llit(sorted(o['dims'].items()), lambda kv: '(%d, (%s, %d))' % (
             DIM_ID[kv[0]], llit([val_id(v) for v in kv[1][0]]), val_id(kv[1][1])))
-        return '(mkLayer %s %d %s %d %d %s %s %s (Some %d) %s)' % (
+        return '(mkLayer %s %d %s %d %d %s %s %s (Some %d) %s %s)' % (
             li.gc.name, fmt_id('mixed' if o.get('mixed') else o['format']), dims, o['meta'][0], o['meta'][1],
-            blit(li.skip_first), blit(li.skip_odd), blit(o['queryable']), li.limit, blit(bool(o.get('mixed'))))
+            blit(li.skip_first), blit(li.skip_odd), blit(o['queryable']), li.limit, blit(bool(o.get('mixed'))),
+            blit(bool(o.get('minimize'))))
 
 
 # ----------------------------------------------------------------------------- requests
@@ -459,7 +465,7 @@ def costly(summ):
 def replay_of(li, app, q, url, ans, summ):
     return {'grid': li.spec, 'layer_options': {'meta_size': li.opts['meta'], 'max_tile_limit': li.opts['max_tiles'],
                                                'dimensions': li.opts['dims'], 'queryable': li.opts['queryable']},
-            'max_output_pixels': app.max_pixels, 'bbox_srs_extent': app.srs_extent, 'mixed_cache': bool(li.opts.get('mixed')), 'request': q, 'url': url, 'answer': ans if isinstance(ans, str) else list(ans),
+            'max_output_pixels': app.max_pixels, 'bbox_srs_extent': app.srs_extent, 'mixed_cache': bool(li.opts.get('mixed')), 'minimize_meta_requests': bool(li.opts.get('minimize')), 'request': q, 'url': url, 'answer': ans if isinstance(ans, str) else list(ans),
             'effects': summ[:40]}
 
 
@@ -794,6 +800,7 @@ class Collector(object):
         self.defs = {}
         self.tile_terms, self.tile_desc = [], []
         self.map_terms, self.map_desc = [], []
+        self.direct_terms, self.direct_desc = [], []
 
 
 def process_tile(ctx, col, app, rec, li, q):
@@ -859,6 +866,85 @@ def process_map(ctx, col, app, rec, li, m):
                          'max_output_pixels': app.max_pixels, 'bbox_srs_extent': app.srs_extent, 'answer': ans, 'effects': summ[:40], 'cached_before': sorted(cached)[:30]})
 
 
+class DirectInfo(object):
+    """the uncached WMS layer of an application (bbox values are multiples of 1/8: scale 8)."""
+    class _GC(object):
+        S = 8
+
+        def zbbox(self, b):
+            return '(%s, %s, %s, %s)' % tuple(zlit(int(Fraction(v) * 8)) for v in b)
+
+    def __init__(self):
+        self.name = 'l_direct'
+        self.gc = DirectInfo._GC()
+        self.stored = set()
+        self.spec = {'direct': True}
+        self.opts = {}
+
+
+def gen_direct_requests(ctx, app, count):
+    rng = ctx.rng
+    out = []
+    for _ in range(count):
+        if app.max_pixels:
+            mw_, mh_ = app.max_pixels
+            w = rng.choice([mw_, mw_ + 1, mw_ - 1, 1, 2 * mw_, 3 * mw_ + 7])
+            h = rng.choice([mh_, mh_ + 1, max(mh_ - 1, 1), (mw_ * mh_) // w, (mw_ * mh_) // w + 1, 5 * mh_])
+        else:
+            w, h = rng.choice([(64, 64), (300, 200), (1000, 700)])
+        h = max(h, 1)
+        r_ = Fraction(rng.choice([10, 20, 5, 40, 1])) * rng.choice([1, Fraction(1, 2), Fraction(1, 4)])
+        if app.srs_extent and rng.random() < 0.5:
+            e = app.srs_extent
+            x0 = rng.choice([e[0], e[2]]) - rng.choice([w, w // 2, 2, 0, w + 3]) * r_
+            y0 = rng.choice([e[1], e[3]]) - rng.choice([h, h // 2, 2, 0, h + 3]) * r_
+        else:
+            x0, y0 = rng.randrange(-3000, 3000), rng.randrange(-3000, 3000)
+        b = [Fraction(x0), Fraction(y0), x0 + w * r_, y0 + h * r_]
+        if not all((v * 8).denominator == 1 for v in b):
+            continue
+        out.append({'bbox': b, 'w': int(w), 'h': int(h), 'fmt': 'png', 'tiled': rng.random() < 0.5, 'kind': 'direct'})
+    return out
+
+
+def process_direct(ctx, col, app, rec, di, m):
+    from mapproxy.image import bbox_position_in_image
+    from mapproxy.grid import bbox_contains, bbox_intersects
+    url = map_url(di, m)
+    ans, log, _resp = run_request(app, rec, url)
+    effs, _cached, summ = effects_of(di, log)
+    rep_ = {'layer': 'l_direct (sources: [wms source], no cache)', 'max_output_pixels': app.max_pixels, 'bbox_srs_extent': app.srs_extent,
+            'request': dict(m, bbox=[float(v) for v in m['bbox']]), 'url': url, 'answer': ans if isinstance(ans, str) else list(ans),
+            'effects': summ[:10]}
+    ctx.case(('direct', url, app.max_pixels, app.srs_extent), True, rep_)
+    ctx.count('map_kind=direct')
+    ctx.count('answer=' + (ans if isinstance(ans, str) else 'other'))
+    if app.max_pixels and m['w'] * m['h'] > app.max_pixels[0] * app.max_pixels[1]:
+        if ans == 'Ok':
+            ctx.fail('map,direct,pixel-limit,answered', 'request of %dx%d pixels (tiled=%s) to an uncached layer answered although max_output_pixels is %r: %s' % (
+                m['w'], m['h'], m['tiled'], app.max_pixels, url), rep_)
+        elif summ:
+            ctx.fail('map,direct,pixel-limit,effects', 'request over the pixel limit caused %r: %s' % (summ[:3], url), rep_)
+    # correspondence except when the part inside the SRS extent has no pixel (the synthetic upstream cannot answer 0 pixels)
+    qb, qs = tuple(float(v) for v in m['bbox']), (m['w'], m['h'])
+    if app.srs_extent is not None:
+        se = tuple(float(v) for v in app.srs_extent)
+        if not bbox_contains(se, qb) and bbox_intersects(se, qb):
+            qs, _o, _b = bbox_position_in_image(qb, qs, se)
+            if qs[0] == 0 or qs[1] == 0:
+                ctx.count('oracle_only=direct-zero-size')
+                return
+    al = answer_lit(ans)
+    if al is None:
+        ctx.problem('correspondence', 'unclassified answer of the implementation for %s' % url, {'answer': list(ans)})
+        return
+    mp = 'None' if not app.max_pixels else '(Some %d)' % (app.max_pixels[0] * app.max_pixels[1])
+    se = 'None' if app.srs_extent is None else '(Some %s)' % di.gc.zbbox(app.srs_extent)
+    col.direct_terms.append('(%s, %s, (mkMap %s %d %d %d %s), (%s, [%s]))' % (
+        mp, se, di.gc.zbbox(m['bbox']), m['w'], m['h'], fmt_id(m['fmt']), blit(m['tiled']), al, '; '.join(effs)))
+    col.direct_desc.append(rep_)
+
+
 def run(ctx):
     rng = ctx.rng
     col = Collector()
@@ -875,7 +961,8 @@ def run(ctx):
                 opts = doc['layer_options']
                 o = {'meta': opts.get('meta_size', [1, 1]), 'max_tiles': opts.get('max_tile_limit'),
                      'dims': dict((k, (v[0], v[1])) for k, v in opts.get('dimensions', {}).items()),
-                     'queryable': opts.get('queryable', True), 'mixed': opts.get('mixed', False), 'format': 'png'}
+                     'queryable': opts.get('queryable', True), 'mixed': opts.get('mixed', False),
+                     'minimize': opts.get('minimize', False), 'format': 'png'}
                 app = App(ctx, [('gc', doc['grid'], o, doc.get('skip_first', False), doc.get('skip_odd', False))],
                           doc.get('max_output_pixels'), doc.get('bbox_srs_extent'))
                 prepare(app, col, seq)
@@ -898,11 +985,18 @@ def run(ctx):
                     m.setdefault('tiled', False)
                     m.setdefault('kind', 'corpus')
                     process_map(ctx, col, app, rec, li, m)
+                for m in doc.get('direct_requests', []):
+                    m = dict(m)
+                    m['bbox'] = [Fraction(str(v)) for v in m['bbox']]
+                    m.setdefault('fmt', 'png')
+                    m.setdefault('tiled', False)
+                    m.setdefault('kind', 'corpus-direct')
+                    process_direct(ctx, col, app, rec, DirectInfo(), m)
                 ctx.count('corpus_files')
             except Exception as e:  # noqa
                 ctx.problem('harness', 'corpus file %s could not be replayed: %r' % (fn, e))
         for a in range(n_apps):
-            maxpix = rng.choice([None, [64, 48], [100, 100], [300, 200], [256, 256], [128, 96]])
+            maxpix = rng.choice([None, [64, 48], [100, 100], [300, 200], [256, 256], [128, 96], [12, 12], [16, 8]])
             specs = make_specs(ctx, n_exact, with_real=(a == 0 or not ctx.quick))
             srs_extent = None
             if rng.random() < 0.67:
@@ -916,6 +1010,9 @@ def run(ctx):
                     srs_extent = [min(b0[0], b1[0]), min(b0[1], b1[1]), max(b0[2], b1[2]), max(b0[3], b1[3])]
             app = App(ctx, specs, maxpix, srs_extent)
             prepare(app, col, seq)
+            di = DirectInfo()
+            for m in gen_direct_requests(ctx, app, ctx.n(40, 80)):
+                process_direct(ctx, col, app, rec, di, m)
             for li in app.layers:
                 reqs = [('t', q) for q in gen_tile_requests(ctx, li, n_tile if (li.exact or li.skip_odd) else n_tile // 2)]
                 if li.exact:
@@ -935,6 +1032,10 @@ def run(ctx):
         'map', 'Grid Limits', 'option Z * option bbox * layer * list coord * mreq * (answer * list effect)', col.map_terms,
         "fun c => let '(mp, se, ly, cached, q, obs) := c in result_matches 0 (serve_map mp se ly cached q) obs",
         lambda i: col.map_desc[i], defs=defs, shard=200)
+    ctx.corr_check(
+        'direct', 'Grid Limits', 'option Z * option bbox * mreq * (answer * list effect)', col.direct_terms,
+        "fun c => let '(mp, se, q, obs) := c in result_matches 0 (serve_direct mp se q) obs",
+        lambda i: col.direct_desc[i])
 
 
 def prepare(app, col, seq):
